@@ -1,8 +1,8 @@
 """Which module decides which property."""
-from . import codec, corecheck, lifecycle, mqttcheck, persist, race, savecrash, stable, stream
+from . import codec, corecheck, lifecycle, session, mqttcheck, persist, race, savecrash, stable, stream
 
 CHECKS = {p: corecheck.check for p in corecheck.PROPS}
-CHECKS.update({"C01": codec.check, "C02": codec.check, "C09": race.check, "C13": persist.check, "C14": persist.check, "C15": savecrash.check, "C17": stream.check, "C18": mqttcheck.check, "C19": stable.check, "C16": lifecycle.check})
+CHECKS.update({"C01": codec.check, "C02": codec.check, "C09": race.check, "C13": persist.check, "C14": persist.check, "C15": savecrash.check, "C17": stream.check, "C18": mqttcheck.check, "C19": stable.check, "C16": lifecycle.check, "session": session.check})
 
 
 def replay(doc: dict) -> int:
